@@ -19,6 +19,7 @@ Inductive ev :=
 | Commit                  (* commit hook: a write transaction (explicit or autocommit) commits *)
 | Rollback                (* rollback hook *)
 | TxnEnd                  (* explicit transaction closed without commit/rollback hook (it never wrote) *)
+| StmtErr                 (* a statement of the writer connection aborted with an error (SQLite error log) *)
 | Crash                   (* process dies; recovery discards whatever was pending *)
 | RBegin | RRead | REnd.  (* second connection: read transaction bracket and read statements *)
 
@@ -36,7 +37,7 @@ Section Sem.
 
   Definition step (m : mstate) (e : ev) : mstate :=
     match e with
-    | OpStart _ | OpEnd _ => m
+    | OpStart _ | OpEnd _ | StmtErr => m
     | Begin =>
         match pending m with
         | Some _ => m
@@ -88,7 +89,9 @@ Inductive dstate :=
 | InTxn (wrote : bool) (* inside the call's one explicit transaction *)
 | Committed            (* the transaction committed: only a successful return may follow *)
 | RolledBack           (* the transaction rolled back: only an error return may follow *)
-| Closed.              (* a transaction that never wrote was closed *)
+| Closed               (* a transaction that never wrote was closed *)
+| FailedIn             (* a statement failed inside the open transaction: only a rollback may follow *)
+| FailedOut.           (* a statement failed outside any transaction: only an error return may follow *)
 
 Definition dstep (s : dstate) (e : ev) : option dstate :=
   match e with
@@ -108,6 +111,14 @@ Definition dstep (s : dstate) (e : ev) : option dstate :=
     | Committed, OpEnd true => Some Idle
     | RolledBack, OpEnd false => Some Idle
     | Closed, OpEnd _ => Some Idle
+    | InTxn _, StmtErr => Some FailedIn
+    | FailedIn, StmtErr => Some FailedIn
+    | FailedIn, Rollback => Some RolledBack
+    | Started, StmtErr => Some FailedOut
+    | FailedOut, StmtErr => Some FailedOut
+    | FailedOut, Rollback => Some RolledBack
+    | FailedOut, OpEnd false => Some Idle
+    | RolledBack, StmtErr => Some RolledBack
     | _, _ => None
     end
   end.
@@ -120,7 +131,8 @@ Fixpoint drun (s : dstate) (t : trace) : option dstate :=
 
 Definition dstate_eqb (a b : dstate) : bool :=
   match a, b with
-  | Idle, Idle | Started, Started | Committed, Committed | RolledBack, RolledBack | Closed, Closed => true
+  | Idle, Idle | Started, Started | Committed, Committed | RolledBack, RolledBack | Closed, Closed
+  | FailedIn, FailedIn | FailedOut, FailedOut => true
   | InTxn x, InTxn y => Bool.eqb x y
   | _, _ => false
   end.
